@@ -271,6 +271,19 @@ def slotsOk (T : Tables) (pre : List (Option Str)) (i : Nat) : List FormTree →
   | t :: ts => formOk T (pre ++ [some (slotName i)]) t && slotsOk T pre (i + 1) ts
 end
 
+mutual
+/-- every Boolean shows its true text or the empty text (`Boolean.false` is `''`): what `.u` of a
+    Boolean can be after `set()`; then an unchecked box stands for a flat pair with value `''` -/
+def boolsCanonical : FormTree → Bool
+  | .bool _ tru u _ => u == tru || u.isEmpty
+  | .dict _ fields => allCanonical fields
+  | .list _ members => allCanonical members
+  | _ => true
+def allCanonical : List FormTree → Bool
+  | [] => true
+  | t :: ts => boolsCanonical t && allCanonical ts
+end
+
 /-! ### the same tree in the flat model -/
 
 open Flatland.Flat (FNode)
